@@ -36,7 +36,7 @@ class Builder:
         return b
 
 
-def build(p, slack=0, strings="nul"):
+def build(p, slack=0, strings="nul", strings_first=False):
     """p: dict(dx b'DX11'|b'DX9\\0', version, vs[], ps[], mat_params[(id, off, size)], mat_size, defaults[f32 bits] or None, scalars[], samplers[], textures[], uavs[],
     sys_keys[(id, def)], scene_keys, mat_keys, sub1, sub2, nodes[dict(selector, passes[(id, vs, ps)], idx bytes16, sys[], scene[], mat[], sub[2])], aliases[(sel, node)])"""
     B = Builder(strings)
@@ -53,11 +53,19 @@ def build(p, slack=0, strings="nul"):
         body += b"".join(struct.pack("<III", *ps) for ps in n["passes"])
     body += b"".join(struct.pack("<II", *a) for a in p["aliases"])
     hdr_len = 4 * 9 + 2 * 8 + 4 * 5
-    sdo = hdr_len + len(body)
-    so = sdo + len(B.blobs)
-    hdr = b"ShPk" + struct.pack("<I", p.get("version", 0x0D01)) + p["dx"] + struct.pack("<III", so + len(B.strs) + slack, sdo, so)
+    if strings_first:
+        # the two sections are located by their offsets: the string block may as well precede the blobs
+        so = hdr_len + len(body)
+        sdo = so + len(B.strs)
+        total = sdo + len(B.blobs) + slack
+    else:
+        sdo = hdr_len + len(body)
+        so = sdo + len(B.blobs)
+        total = so + len(B.strs) + slack
+    hdr = b"ShPk" + struct.pack("<I", p.get("version", 0x0D01)) + p["dx"] + struct.pack("<III", total, sdo, so)
     hdr += struct.pack("<II", len(p["vs"]), len(p["ps"])) + struct.pack("<IH", p["mat_size"], len(p["mat_params"]))
     hdr += struct.pack("<HHHHHHH", 1 if p["defaults"] is not None else 0, len(p["scalars"]), 0, len(p["samplers"]), len(p["textures"]), len(p["uavs"]), 0)
     hdr += struct.pack("<IIIII", len(p["sys_keys"]), len(p["scene_keys"]), len(p["mat_keys"]), len(p["nodes"]), len(p["aliases"]))
     assert len(hdr) == hdr_len
-    return hdr + body + B.blobs + B.strs + b"\0" * slack, dict(shader_data_offset=sdo, strings_offset=so)
+    tail = (B.strs + B.blobs) if strings_first else (B.blobs + B.strs)
+    return hdr + body + tail + b"\0" * slack, dict(shader_data_offset=sdo, strings_offset=so)
